@@ -132,6 +132,17 @@ def build_fd(ov, tag):
     """ov: {'params': [[name, typespec, default?]...], 'varargs': typespec|None,
     'kind': 'function'|'method'|'extension', 'no_kwargs': bool}"""
     from yaql.language import specs
+    if ov.get('shared_payload'):
+        fn = _shared_payload(len(ov['params']))
+        fd = specs.get_function_definition(fn, name='f')
+        for p in ov['params']:
+            fd.set_parameter(p[0], type_from_spec(p[1]), overwrite=True)
+        fd.no_kwargs = bool(ov.get('no_kwargs'))
+        if ov['kind'] == 'method':
+            fd.is_method, fd.is_function = True, False
+        elif ov['kind'] == 'extension':
+            fd.is_method, fd.is_function = True, True
+        return fd
     names = []
     for p in ov['params']:
         if len(p) > 2 and p[2] is not None:
@@ -158,9 +169,31 @@ def build_fd(ov, tag):
     return fd
 
 
+def _shared_payload(n):
+    fn = _state.get(('shared', n))
+    if fn is None:
+        ns = {}
+        exec('def ov_shared(%s):\n    return "shared"\n'
+             % ', '.join('p%d' % i for i in range(n)), ns)
+        fn = _state[('shared', n)] = ns['ov_shared']
+    return fn
+
+
 def gen_family(rng):
     shape = rng.random()
-    nparams = rng.choice([1, 2, 2, 2, 3])
+    nparams = rng.choice([0, 1, 2, 2, 2, 3])
+    if nparams == 0:
+        # parameterless / all-default / varargs-only overloads: a call
+        # without arguments matches several of them
+        fam = []
+        for i in range(rng.choice([2, 2, 3])):
+            k = rng.choice(['none', 'default', 'varargs'])
+            fam.append({'params': [['p0', ['obj'], 7]] if k == 'default' else [],
+                        'varargs': ['obj'] if k == 'varargs' else None,
+                        'kind': 'function', 'no_kwargs': False, 'layer': 0})
+        if rng.random() < 0.3:
+            fam[-1]['layer'] = 1
+        return fam, 0
     kind = rng.choice(['function', 'function', 'extension', 'method'])
     lazy_pos = rng.randrange(1, nparams) if (rng.random() < 0.15 and nparams > 1) else None
     ovs = []
@@ -203,6 +236,13 @@ def gen_family(rng):
                 ['function', 'extension', 'method']),
             'no_kwargs': rng.random() < 0.06,
             'layer': 0})
+    if rng.random() < 0.12 and all(
+            len(ov['params']) == nparams and not ov['varargs'] and
+            all(p[2] is None for p in ov['params']) for ov in family):
+        # one Python callable registered several times under one name with
+        # different parameter declarations
+        for ov in family:
+            ov['shared_payload'] = True
     # spread over layers (0 = nearest)
     nl = rng.choice([1, 1, 1, 2, 3])
     if nl > 1:
@@ -215,7 +255,7 @@ def gen_family(rng):
 def gen_calls(rng, family, nparams):
     calls = []
     for _ in range(rng.choice([2, 3, 4])):
-        n = nparams if rng.random() < 0.8 else rng.choice([1, 2, 3])
+        n = nparams if rng.random() < 0.8 else rng.choice([0, 1, 2, 3])
         if rng.random() < 0.5:
             args = [rng.choice([['D'], ['D'], ['F'], ['F'], ['B'], ['C'],
                                 ['none']])
@@ -614,6 +654,7 @@ def execute_stdlib(case, stats):
                     return out
                 args = [std_value(v) for v in call['args']]
                 del chosen[:]
+                undo_random = seams.patch_random(4242)   # random()/randint()
                 seams.OrderSeam.set(cb)
                 try:
                     try:
@@ -630,6 +671,7 @@ def execute_stdlib(case, stats):
                         o = ['exc!', type(e).__name__]
                 finally:
                     seams.OrderSeam.set('natural')
+                    undo_random()
                 o.append(list(chosen[:1]))
                 outcomes.setdefault(core.jdump(o), []).append(t)
                 stats.inc('resolutions')
